@@ -426,6 +426,27 @@ def build(P):
             "TYPE P = ^INTEGER\nDECLARE p : P\nCONSTANT K = 3\np <- ^K\nOUTPUT p^", "TYPE P = ^Nope", "TYPE P = ^INTEGER\nTYPE P = ^STRING",
         ]
         yield ("shapes", [Case(id="C09-shape-%d" % i, prog=(s + "\n").encode()) for i, s in enumerate(shapes)])
+        # an alias (pointer / BYREF parameter) to a place inside a container stays an alias of that place when the container, or a part of it
+        # on the way to the place, is assigned as a whole afterwards: the alias then reads the new contents and writes into them
+        TY = ["TYPE In\nDECLARE x : INTEGER\nENDTYPE", "TYPE Mid\nDECLARE inner : In\nDECLARE tag : INTEGER\nENDTYPE",
+              "TYPE Out\nDECLARE f : INTEGER\nDECLARE inner : In\nDECLARE mid : Mid\nDECLARE v : ARRAY[1:3] OF INTEGER\nDECLARE items : ARRAY[1:3] OF In\nENDTYPE", "TYPE PI = ^INTEGER",
+              "DECLARE r, s : Out", "DECLARE a, b : ARRAY[1:3] OF Out", "DECLARE gp : PI",
+              "FUNCTION Mk(k : INTEGER) RETURNS Out\nDECLARE t : Out\nt.f <- k\nt.inner.x <- k + 1\nt.mid.inner.x <- k + 2\nt.v[2] <- k + 3\nt.items[2].x <- k + 4\nRETURN t\nENDFUNCTION",
+              "s <- Mk(100)", "r <- Mk(200)", "b[2] <- Mk(300)", "a[2] <- Mk(400)"]
+        places = ["r.f", "r.inner.x", "r.mid.inner.x", "r.v[2]", "r.items[2].x", "a[2].f", "a[2].inner.x", "a[2].mid.inner.x", "a[2].v[2]", "a[2].items[2].x"]
+        overwrites = {"r": ["r <- s", "r <- Mk(500)", "r.inner <- s.inner", "r.mid <- s.mid", "r.mid.inner <- s.inner", "r.v <- s.v", "r.items <- s.items", "r.items[2] <- s.inner", "r <- r", "r.items <- r.items"],
+                      "a": ["a <- b", "a[2] <- b[2]", "a[2] <- s", "a[2] <- Mk(600)", "a[2].inner <- s.inner", "a[2].mid <- s.mid", "a[2].items <- s.items", "a[2].items[2] <- s.inner", "a <- a", "a[2] <- a[2]"]}
+        def dump(root):
+            return "OUTPUT %s.f, \" \", %s.inner.x, \" \", %s.mid.inner.x, \" \", %s.v[2], \" \", %s.items[2].x" % ((root,) * 5)
+        al = []
+        for pl in places:
+            root = pl[0]
+            for ow in overwrites[root]:
+                # pointer
+                al.append("\n".join(TY + ["gp <- ^%s" % pl, "OUTPUT gp^", ow, "OUTPUT gp^", "gp^ <- 77", dump("r" if root == "r" else "a[2]"), dump("s"), dump("b[2]")]))
+                # BYREF parameter, the overwrite happens inside the callee
+                al.append("\n".join(TY + ["PROCEDURE Q(BYREF y : INTEGER)", "OUTPUT y", ow, "OUTPUT y", "y <- 77", "ENDPROCEDURE", "CALL Q(%s)" % pl, dump("r" if root == "r" else "a[2]"), dump("s"), dump("b[2]")]))
+        yield ("alias-overwrite", [Case(id="C09-alias-%d" % i, prog=(sp + "\n").encode(), meta=dict(units=["alias/%d" % i])) for i, sp in enumerate(al)])
         n = sizes(tier, 500, 12000)
         cs = []
         for i in range(n):
